@@ -141,6 +141,48 @@ def run(species, coords, sp: Dict[str, Any], charges=None, mult=None, P0=None, l
     return out
 
 
+def _collect(mol, es) -> Dict[str, Any]:
+    return {
+        "Etot": mol.Etot.detach().numpy().copy(), "Eelec": mol.Eelec.detach().numpy().copy(), "Enuc": mol.Enuc.detach().numpy().copy(),
+        "Hf": mol.Hf.detach().numpy().copy(), "Eiso": mol.Eiso.detach().numpy().copy(), "force": mol.force.detach().numpy().copy(),
+        "q": mol.q.detach().numpy().copy() if mol.q is not None else None,
+        "dipole": mol.dipole.detach().numpy().copy() if torch.is_tensor(mol.dipole) else None,
+        "e_mo": mol.e_mo.detach().numpy().copy() if torch.is_tensor(mol.e_mo) else None,
+        "e_gap": mol.e_gap.detach().numpy().copy() if torch.is_tensor(mol.e_gap) else None,
+        "dm": mol.dm.detach().numpy().copy(),
+        "notconverged": es.notconverged.detach().numpy().copy() if torch.is_tensor(es.notconverged) else np.array(es.notconverged),
+        "nocc": mol.nocc.detach().numpy().copy(), "norb": mol.norb.detach().numpy().copy(),
+        "cis_energies": mol.cis_energies.detach().numpy().copy() if torch.is_tensor(mol.cis_energies) else None,
+    }
+
+
+def run_sequence(species, coords_list, sp: Dict[str, Any], charges=None, mult=None) -> List[Dict[str, Any]]:
+    """ONE Molecule object and ONE driver evaluated at a sequence of geometries (coordinates overwritten in place, as MD / optimisers / scans do)"""
+    from seqm.ElectronicStructure import Electronic_Structure
+    from seqm.Molecule import Molecule
+    from seqm.seqm_functions.constants import Constants
+
+    import copy as _copy
+
+    sp = _copy.deepcopy(sp)
+    kw = {}
+    if charges is not None:
+        kw["charges"] = torch.as_tensor(np.asarray(charges), dtype=torch.float64)
+    if mult is not None:
+        kw["mult"] = torch.as_tensor(np.asarray(mult), dtype=torch.float64)
+    outs = []
+    with contextlib.redirect_stdout(io.StringIO()):
+        mol = Molecule(Constants(), sp, torch.as_tensor(np.asarray(coords_list[0]), dtype=torch.float64).clone(), torch.as_tensor(np.asarray(species), dtype=torch.int64), **kw)
+        es = Electronic_Structure(sp)
+        for i, x in enumerate(coords_list):
+            if i:
+                with torch.no_grad():
+                    mol.coordinates.copy_(torch.as_tensor(np.asarray(x), dtype=torch.float64))
+            es(mol)
+            outs.append(_collect(mol, es))
+    return outs
+
+
 def run_named(names: Sequence[str], sp: Dict[str, Any], pad_to=None, pad_coord=0.0, coords=None, **kw) -> Dict[str, Any]:
     s, x, ch, mu = batch(names, pad_to=pad_to, pad_coord=pad_coord, coords=coords)
     uhf = bool(sp.get("UHF", False))
